@@ -81,6 +81,8 @@ class P(Prop):
         ("TracklibVerif.Props.C17", "TV.C17.speed_table_class", "T2 on any lawful table for every class with a planimetric distance: estimate_speed returns the column with fixes (1,0)/(n-1,n-2)/(i+1,i-1), NaN iff the elapsed time is zero, else d_class / elapsed, of the CURRENT positions and times; speed reads it; nothing else changes"),
         ("TracklibVerif.Props.C17", "TV.C17.speed_table_class_again", "on a lawful table that lists speed, estimate_speed returns the listed column and does not change the state — for ANY kernel (ECEF included: no distance is taken)"),
         ("TracklibVerif.Props.C17", "TV.C17.curvabs_table_class", "computeCurvAbsBetweenTwoPoints on a lawful table of a Geo / ENU track only reads and returns the legs d_class(P[k],P[k+1]) accumulated in Python's order (for Geo: tangent frame at the LATER fix, the other end than ds)"),
+        ("TracklibVerif.Props.C17", "TV.C17.abscurv_monotone_class", "the column abscurv_table_class returns never decreases for every class WITHOUT exact arithmetic (0 <= sqrt x, a <= a+d for d >= 0), whatever the trigonometric functions return"),
+        ("TracklibVerif.Props.C17", "TV.C17.class_columns_def", "the entries of the columns of abscurv_table_class / speed_table_class for any distance d: s[0]=0, s[i+1]=s[i]+d(P[i+1],P[i]); speed: one value per fix, fixes (1,0)/(n-1,n-2)/(i+1,i-1), NaN iff the elapsed time is zero, else d(P[a],P[b]) / elapsed"),
         ("TracklibVerif.Props.C17", "TV.C17.ecef_refused_table", "ECEF tracks on any lawful table of n>=2 fixes (shared observations included): computeAbsCurv ends in the refusal raised at fix 1, a ds column stays listed with 0 at fix 0, no abs_curv; estimate_speed ends in the AttributeError at fix 0, a speed column stays listed; every other name, coordinates, times, invariant unchanged"),
         ("TracklibVerif.Props.C17", "TV.C17.abscurv_shared_class", "computeAbsCurv(track k) on a pool of Geo (or ENU) observations SHARED between tracks, as one step of a history: prefix sums of the class distance of the current positions whatever foreign slots the objects carry; track k reads them under abs_curv"),
         ("TracklibVerif.Props.C17", "TV.C17.speed_shared_class", "estimate_speed(track k) on shared Geo (or ENU) observations: speed column of the class distance of the current positions and of the absolute times of the CURRENT timestamp fields"),
@@ -91,6 +93,7 @@ class P(Prop):
     open_statements = ["IEEE rounding of sqrt / + / division is outside the theorems (ordered-field statement; the recurrences abscurv_prefix / abscurv_table / speed_table hold for any scalar type, so also for the Float operations in Python's order); sampled by the transfer check with rel. tolerance 1e-9",
                        "Model/CinematicsCoords.lean (the list model of one track per coordinate class, driver `C17.coords`) and Model/CinematicsTabK.lean (the same dispatch behind the Track API, driver `C17.worldc`) are two models of the same Python: both are compared with the implementation on every run, no Lean theorem relates them to each other (the table theorems *_table_class are about the second)",
                        "Track.length() (3D, Obs.distanceTo -> GeoCoords / ECEFCoords.distanceTo) is modelled for ENUCoords only: not generated on Geo / ECEF pools",
+                       "the ENU kernel of Model/CinematicsTabK.lean (worldc N) answers NaN when the THIRD coordinate of a fix is NaN, whereas ENUCoords.distance2DTo does not read U; the pools generated and the hypotheses of the class theorems have finite coordinates (the ENU world stream proper, `world`, goes through Model/CinematicsTab.lean, which does not read U)",
                        "geo_distance_horizontal is over the reals: the rounding of the geodetic -> ECEF -> local-frame chain (sin, cos, atan2, pow, sqrt of libm) is outside the theorems; the oracle bounds it by 1e-6 m against its own geodesy (measured < 1e-8 m)",
                        "GeoCoords.toENUCoords is modelled for STANDARD_PROJ == 1 (the module constant of this tree) only"]
     modelled = ("algo/analytics.py ds, speed; core/obs.py Obs.distance2DTo with __check_call_geom1 (ECEF refused); core/obs_coords.py ENUCoords.distance2DTo/distanceTo/__sub__/norm2D/norm, "
